@@ -2,6 +2,7 @@ package main
 
 import (
 	"go/token"
+	"strconv"
 	"strings"
 
 	"golang.org/x/tools/go/ssa"
@@ -180,6 +181,7 @@ func runC04(c *Ctx) {
 	c.Extra["removal_call_graph"] = len(fns)
 
 	c.c04LinkTestOnCleanPath(fns)
+	c.c04AbsenceOnlyFromLstat(fns)
 	c.rule("N14", absentOnlyWhenAbsentText, 3)
 	c.c04AbsentOnlyWhenAbsent("N14", nil)
 	for _, f := range fns {
@@ -921,5 +923,125 @@ func (c *Ctx) c04AbsentOnlyWhenAbsent(rule string, only func(*ssa.Function) bool
 					"the function answers 'nothing there' as soon as Exists() answers false, which it also does for a path that cannot be examined (longer than PATH_MAX, a failing Stat): the content stays in place and the caller is told that it is gone / clean / empty")
 			}
 		})
+	}
+}
+
+// c04AbsenceOnlyFromLstat (N15): "when the call reports success the tree is really gone, dangling links included". In the
+// removal call graph, success is sometimes concluded from the kind of an error ('not found': there is nothing to remove).
+// That conclusion is only sound for an examination which does not follow links: Stat, and everything built on it (the
+// privileged fallback of package platform looks at the path with os.Stat), answers 'not found' for a dangling link that is
+// still there. Decided: wherever a return hands back a nil error on the true side of a classification of an error value
+// (commonerrors.Any with a not-found kind, IsPathNotExist, os.IsNotExist, errors.Is), the value classified is the error of
+// an Lstat call.
+func (c *Ctx) c04AbsenceOnlyFromLstat(fns []*ssa.Function) {
+	c.rule("N15", "in the removal call graph a failure is turned into success on the strength of its kind ('not found') only where the error classified is that of an Lstat — the one examination that does not follow links", 0)
+	classifierOf := func(v ssa.Value) (*ssa.Call, bool) {
+		cl, ok := v.(*ssa.Call)
+		if !ok || len(cl.Call.Args) == 0 {
+			return nil, false
+		}
+		n := calleeFull(&cl.Call)
+		switch {
+		case strings.HasSuffix(n, "filesystem.IsPathNotExist"), n == "os.IsNotExist", n == "errors.Is":
+			return cl, true
+		case strings.HasSuffix(n, "commonerrors.Any") && len(cl.Call.Args) > 1:
+			for _, e := range variadicElems(cl.Call.Args[1]) {
+				if isNilConst(e) {
+					return nil, false // Any(err, nil, …): true for a success too, nothing is concluded from a kind
+				}
+			}
+			return cl, true
+		}
+		return nil, false
+	}
+	fromLstat := func(e ssa.Value) bool {
+		ok := false
+		for _, l := range sources(e, deriveOpts{through: func(n string) bool { return strings.HasSuffix(n, "ConvertFileSystemError") }}) {
+			if ex, isEx := l.(*ssa.Extract); isEx {
+				l = ex.Tuple
+			}
+			cl, isCall := l.(*ssa.Call)
+			if !isCall {
+				return false
+			}
+			if nm, _, isFs := fsMethodCall(cl); isFs && nm == "Lstat" {
+				ok = true
+				continue
+			}
+			if calleeFull(&cl.Call) == "os.Lstat" {
+				ok = true
+				continue
+			}
+			return false
+		}
+		return ok
+	}
+	n := 0
+	for _, f := range fns {
+		if f.Blocks == nil {
+			continue
+		}
+		k := f.Signature.Results().Len() - 1
+		if k < 0 || !isErrorType(f.Signature.Results().At(k).Type()) {
+			continue
+		}
+		var sites []*ssa.BasicBlock
+		allInstrs(f, func(in ssa.Instruction) {
+			r, ok := in.(*ssa.Return)
+			if !ok || len(r.Results) <= k {
+				return
+			}
+			seen := map[ssa.Value]bool{}
+			var walk func(v ssa.Value, b *ssa.BasicBlock)
+			walk = func(v ssa.Value, b *ssa.BasicBlock) {
+				if isNilConst(v) {
+					sites = append(sites, b)
+					return
+				}
+				if p, ok := v.(*ssa.Phi); ok && !seen[p] {
+					seen[p] = true
+					for i, e := range p.Edges {
+						walk(e, p.Block().Preds[i])
+					}
+				}
+			}
+			walk(r.Results[k], r.Block())
+		})
+		done := map[*ssa.Call]bool{}
+		for _, b := range sites {
+			at := b.Instrs[len(b.Instrs)-1]
+			var hit *ssa.Call
+			onBoolSide(at, true, func(v ssa.Value) bool {
+				if cl, ok := classifierOf(v); ok {
+					hit = cl
+					return true
+				}
+				return false
+			})
+			if hit == nil || done[hit] {
+				continue
+			}
+			done[hit] = true
+			converter := false
+			for _, l := range sources(hit.Call.Args[0], deriveOpts{through: func(string) bool { return true }}) {
+				if prm, isParam := l.(*ssa.Parameter); isParam && isErrorType(prm.Type()) {
+					converter = true
+				}
+			}
+			if converter {
+				continue // a converter: it classifies the error it was given and decides nothing about a removal
+			}
+			n++
+			key := fname(f) + "/success-by-kind"
+			if n > 1 {
+				key += "#" + strconv.Itoa(n-1)
+			}
+			c.FuncsSeen[fname(f)] = true
+			c.check(fromLstat(hit.Call.Args[0]), "N15", key, c.ipos(hit), "the error taken for 'absent' is that of an Lstat",
+				"success is reported because an error was classified as 'not found', and that error does not come from an Lstat: an examination that follows links (Stat, the privileged fallback of package platform) answers 'not found' for a dangling link which is still there — the call reports that the tree is gone and the link stays")
+		}
+	}
+	if n == 0 {
+		c.info("N15", "filesystem/no-success-by-kind", "-", "no function of the removal call graph concludes success from the kind of an error")
 	}
 }
